@@ -67,4 +67,12 @@ CHECKS = {
                                "de-duplication on the option objects' publicly observable state to a fixpoint / depth bound",
                         ["BFS de-duplication keys on the state visible through the public API (values, counts, has_non_default); hidden state "
                          "outside it is only covered by the un-deduplicated depth-h enumeration"]),
+    "C15": dict(src=["checks/C15.cpp"], nitro=["options", "env"], variants=PLAIN_ASAN, runs=both,
+                deadline_s={"quick": 300, "thorough": 1500},
+                assumptions=["about text and group descriptions are kept short: they are written verbatim (not wrapped) and the statement's "
+                             "80-column clause is judged only on the synopsis and the option section",
+                             "line width uses the lenient reading: a longer line must contain a word (or synopsis unit) that cannot fit the column",
+                             "a non-reversible toggle may or may not print its default"],
+                explanation="declarations (single item over the full attribute product; 2-3 items over groups, creation orders, name "
+                            "permutations) x 7 target streams; differential oracle across streams + structural parse-back of the text"),
 }
